@@ -1467,6 +1467,15 @@ func main() {
 	writeIfChanged(filepath.Join(*out, "GenFrameUse.v"), w.Bytes())
 	fmt.Printf("go2v: GenFrameUse.v %d frame-use rows, %d hand-over sites\n", nfu, nfx)
 
+	// GenCtxFlow.v (C14): which context the retrying clients hand down; the stop / notify / watch
+	// statements of the connection-failure path (ctxflow.go)
+	w.Reset()
+	fmt.Fprintf(&w, header, *repo)
+	ncx, ncl := ctxFlowSites(&w, *repo, root.pkg.PkgPath)
+	nst, nnt, nwt := root.connFailSites(&w)
+	writeIfChanged(filepath.Join(*out, "GenCtxFlow.v"), w.Bytes())
+	fmt.Printf("go2v: GenCtxFlow.v %d context hand-over sites below %d RunWithRetry attempt functions, %d stopExchanges sites, %d stopExchanges statements, %d watcher calls\n", ncx, ncl, nst, nnt, nwt)
+
 	// GenReqStatePool.v (C17): life cycle of the pooled RequestState: pool sites, uses of the holding variables, reset per field (rspool.go)
 	w.Reset()
 	fmt.Fprintf(&w, header, *repo)
